@@ -40,7 +40,7 @@ var propWS = hx.Prop[WCase]{
 		"after a generated number of events; late joiners connect afterwards; oracle: every client that stays receives exactly its " +
 		"expected sequence (replay, then every matching event once, in order; v1 = stored only), late joiners exactly the retained " +
 		"history, Hub.Sync returns within 20 s; non-trivial = >=2 clients, one of which disconnects while events are still flowing",
-	Quick: 25, Thorough: 150,
+	Quick: 60, Thorough: 300,
 	Gen: func(t *rapid.T) WCase {
 		cg := rapid.Custom(func(t *rapid.T) WClient {
 			return WClient{V: rapid.SampledFrom([]int{1, 2, 2}).Draw(t, "v"), Filter: rapid.SampledFrom([]int{0, 0, 1, 2}).Draw(t, "filter"),
@@ -52,7 +52,7 @@ var propWS = hx.Prop[WCase]{
 			Events: rapid.SliceOfN(rapid.Custom(func(t *rapid.T) WEv {
 				return WEv{Box: rapid.IntRange(0, 2).Draw(t, "box"), Del: rapid.IntRange(0, 4).Draw(t, "del") == 0}
 			}), 5, 60).Draw(t, "events"),
-			Late: rapid.SliceOfN(cg, 0, 2).Draw(t, "late"),
+			Late: rapid.SliceOfN(cg, 1, 2).Draw(t, "late"),
 		}
 	},
 	Run: runWS,
@@ -225,6 +225,12 @@ func runWS(c WCase) *hx.Outcome {
 		var e ev
 		if x.Del {
 			l, ok := last[x.Box]
+			if x.Box == 0 {
+				// the oldest retained message instead (full ring: the slot under the write cursor)
+				if h := retained(); len(h) > 0 {
+					l, ok = h[0], true
+				}
+			}
 			if !ok {
 				continue
 			}
